@@ -241,3 +241,21 @@ Theorem C18_spec_fuuid_reads : forall r known a m', spec_fuuid r known a (FRes 2
     forall ss, parse m = Some ss -> forallb legacy_stream ss = true -> pdh m = p /\ m' = render (map (rw_stream r) ss).
 Proof. exact spec_fuuid_reads. Qed.
 Print Assumptions C18_spec_fuuid_reads.
+
+(* limited capacity (API.MaxRequestAmplification = amp; a silent remote keeps its slot): the evaluator judges
+   spec_fget2, which adds availability of the honest answer - when the silent remotes cannot exhaust the capacity
+   (must_ask), every configured remote counts, also one whose request never reached the transport.  The model, run
+   with the unasked remotes counted as silent, meets it whenever a remote is left unasked only legitimately ... *)
+Theorem C18_fan_model_meets_spec2 : forall amp req local arr unasked,
+  unasked = [] \/ must_ask amp arr = false ->
+  spec_fget2 amp req local arr unasked (fan_get req local (mask unasked arr)) = true.
+Proof. exact fan_model_meets_spec2. Qed.
+Print Assumptions C18_fan_model_meets_spec2.
+(* ... and it says: no manifest for the client although capacity allows every remote to be asked means that no
+   configured remote holds an honest answer (the model side is C18_fan_honest_remote_wins) *)
+Theorem C18_spec_fget2_availability : forall amp req lb arr unasked c,
+  spec_fget2 amp req (HResp 404 lb) arr unasked (FRes c None) = true -> must_ask amp arr = true ->
+  forall r p m ss, In (r, HResp 200 (BCol p m)) arr -> p = (if req =? "" then p else req) ->
+                   parse m = Some ss -> forallb legacy_stream ss = true -> pdh m <> p.
+Proof. exact spec_fget2_availability. Qed.
+Print Assumptions C18_spec_fget2_availability.
